@@ -340,6 +340,10 @@ def eval_sphinx(ctx, case):
         # configuration-triggered warnings as well: a user mathjax class that MyST overrides (dollarmath on)
         xc = {"mathjax3_config": {"options": {"processHtmlClass": "user-class"}}} if case.get("mathjax") else None
         exts = EXT + (["dollarmath"] if case.get("mathjax") else [])
+        if case.get("deprecated"):
+            # the deprecated extension next to its successor (both front ends keep separate copies of this check)
+            exts = exts + ["attrs_image"]
+            exp.append("myst.deprecated")
         WL.clear()
         d0, r0, w0, rec0 = sphinx_run(text, [], exts, xc)
         ev0 = list(WL.events)
@@ -358,10 +362,6 @@ def eval_sphinx(ctx, case):
             ctx.violation("catalogue:unknown-myst-subtype", f"[sphinx] warning logged with tag myst.{st}", case, detail)
         if t:
             ctx.count(f"sphinx_tag:{t}.{st}")
-    tags0 = sorted(f"{t}.{st}" for t, st, _ in rec0 if t in ("myst", "ref") and st)
-    missing = [t for t in set(exp) if tags0.count(t) < exp.count(t)]
-    if missing:
-        ctx.violation("catalogue:sphinx-tag-differs-from-docutils:" + missing[0], f"[sphinx] constructs that warn with {missing} in the docutils front end produced tags {tags0}", case, {**detail, "stream": w0[-1200:]})
     # log: lines with a tag matched by S must vanish, all others stay
     def recs(w):
         out = []
@@ -378,6 +378,15 @@ def eval_sphinx(ctx, case):
         # the mathjax-override warning is logged without a printed tag, but names its own suppression tag in its text
         return "myst.mathjax" if "is being overridden by myst-parser" in l else line_tag(l)
 
+    tags0 = sorted(f"{t}.{st}" for t, st, _ in rec0 if t in ("myst", "ref") and st)
+    # warnings logged while the application is being set up (configuration checks) are only in the stream
+    for l in recs(w0):
+        tg = line_tag(l)
+        if tg and tg.split(".")[0] in ("myst", "ref") and tg not in tags0:
+            tags0.append(tg)
+    missing = [t for t in set(exp) if tags0.count(t) < exp.count(t)]
+    if missing:
+        ctx.violation("catalogue:sphinx-tag-differs-from-docutils:" + missing[0], f"[sphinx] constructs that warn with {missing} in the docutils front end produced tags {tags0}", case, {**detail, "stream": w0[-1200:]})
     l0, lS = recs(w0), recs(wS)
     for l in l0 + lS:
         # tags printed in the log (this also covers warnings emitted while the application is still being set up)
@@ -483,7 +492,7 @@ def run_shard(ctx):
     for i in range(ns):
         trig = [R.choice(SPHINX_TRIGGERS) for _ in range(R.randint(1, 6))]
         exp = [triggers(0)[t][1] for t in trig if triggers(0)[t][1]]
-        case = {"kind": "sphinx", "triggers": trig, "S": rand_S(R, exp), "mathjax": R.random() < 0.3}
+        case = {"kind": "sphinx", "triggers": trig, "S": rand_S(R, exp), "mathjax": R.random() < 0.3, "deprecated": R.random() < 0.35}
         nt = eval_case(ctx, case)
         ctx.case(repr(case), bool(nt))
         if i == 0:
